@@ -359,6 +359,11 @@ def _escape_non_alphanumeric(re_sub: Any) -> str:
     return f"__{ord(re_sub.group(0))}__"
 
 
+def _spell_out_non_alphanumeric(re_sub: Any) -> str:
+    """Convert a non-alphanumeric character to a plain spelling of its code point."""
+    return f"u{ord(re_sub.group(0))}"
+
+
 def _convert_id_to_sbml(id_: str, prefix: str) -> str:
     """Add prefix if id startswith number."""
     new_id = RE_TO_SBML.sub(_escape_non_alphanumeric, id_).replace(".", SBML_DOT)
@@ -555,6 +560,11 @@ def _free_reference_id(
     re-exported model contains the references of the first export as derived values).
     """
     taken = model.ids
+    # The id is made up here, so it is spelled with characters that need no escaping:
+    # readers decode escape sequences in some places (rule variables) but not in
+    # others (species reference ids), and the two have to stay the same name
+    compound_id = RE_TO_SBML.sub(_spell_out_non_alphanumeric, compound_id)
+    rxn_name = RE_TO_SBML.sub(_spell_out_non_alphanumeric, rxn_name)
     candidates = [f"{compound_id}ref", f"{compound_id}ref_{rxn_name}"]
     i = 2
     while True:
@@ -603,7 +613,8 @@ def _create_sbml_reactions(
 
                     # The rule carries the signed coefficient, so it is a product
                     sref = sbml_rxn.createProduct()
-                    sref.setId(_convert_id_to_sbml(id_=reference, prefix="CPD"))
+                    # The same id as the rule that computes the coefficient
+                    sref.setId(_convert_id_to_sbml(id_=reference, prefix="AR"))
                     sref.setSpecies(_convert_id_to_sbml(id_=compound_id, prefix="CPD"))
                 case _:
                     msg = f"Stoichiometry type {type(factor)} not supported"
